@@ -15,7 +15,7 @@ import (
 )
 
 // C15 — provider collateral is fully backed and returned exactly once.
-type C15 struct{}
+type C15 struct{ Seeded bool } // Seeded: provider A starts registered and holding three files it will stop proving
 
 const c15Price = int64(1_000_000)
 
@@ -35,9 +35,25 @@ func (m c15Model) clone() c15Model {
 	return n
 }
 
-func (C15) ID() string   { return "C15" }
-func (C15) Name() string { return "C15/collateral" }
-func (C15) Config() world.Config {
+func (C15) ID() string { return "C15" }
+func (s C15) Name() string {
+	if s.Seeded {
+		return "C15/collateral-lapsing-provider"
+	}
+	return "C15/collateral"
+}
+
+var c15Files = []*sfile{mkFile(seqBytes(8, 61), 4), mkFile(seqBytes(8, 62), 4), mkFile(seqBytes(8, 63), 4)}
+
+func (s C15) Config() world.Config {
+	if s.Seeded {
+		return world.Config{
+			Accounts: []string{"A", "B", "C", "D"},
+			Storage: func(p *storagetypes.Params) {
+				p.CollateralPrice, p.ChunkSize, p.ProofWindow, p.CheckWindow = c15Price, 4, 2, 2
+			},
+		}
+	}
 	return world.Config{
 		Accounts: []string{"A", "B", "C", "D"},
 		// D can afford the base price and half of it, but not the doubled price
@@ -46,7 +62,22 @@ func (C15) Config() world.Config {
 	}
 }
 func (C15) Stores() []string { return []string{"storage", "bank"} }
-func (C15) Init(env world.Env) mc.Model {
+func (s C15) Init(env world.Env) mc.Model {
+	if s.Seeded {
+		w := env.W()
+		a, c := w.A("A").Bech, w.A("C").Bech
+		mustOK(env.Deliver(storagetypes.NewMsgInitProvider(a, "https://A.example.com", 1_000_000, "kb")), "InitProvider")
+		mustOK(env.Deliver(storagetypes.NewMsgBuyStorage(c, c, 30, 1_000_000_000, "ujkl")), "BuyStorage")
+		h := env.Ctx().BlockHeight()
+		for _, f := range c15Files {
+			mustOK(env.Deliver(storagetypes.NewMsgPostFile(c, f.merkle, int64(len(f.data)), 0, 0, 1, "{}")), "PostFile")
+			item, hl := f.proofFor(0)
+			if ok, e := postProofOK(w, env.Deliver(storagetypes.NewMsgPostProof(a, f.merkle, c, h, item, hl, 0))); !ok {
+				panic("seed proof: " + e)
+			}
+		}
+		return c15Model{Price: c15Price, Rec: map[string]int64{"A": c15Price}, Buys: 1}
+	}
 	// a 32-byte account (the length of contract and interchain accounts) whose address string begins with A's complete
 	// address string; it is funded here and acts through unsigned (contract-dispatched) messages
 	w := env.W()
@@ -60,8 +91,15 @@ func (C15) Init(env world.Env) mc.Model {
 
 var c15Who = []string{"A", "B", "D"}
 
-func (C15) Events(env world.Env, m mc.Model) []string {
+func (s C15) Events(env world.Env, m mc.Model) []string {
 	var evs []string
+	if s.Seeded { // the provider never proves again: reward blocks drop and burn it on all three files
+		evs = append(evs, "Init:A", "Shutdown:A", "Init:B", "Price:2")
+		if m.(c15Model).Blocks < 6 {
+			evs = append(evs, "NextBlock")
+		}
+		return evs
+	}
 	for _, x := range c15Who {
 		evs = append(evs, "Init:"+x)
 	}
